@@ -418,6 +418,15 @@ class CylSeg(Body):
             return TWO_PI * u
         return self.phi1 + (0.02 + 0.96 * u) * self.dphi
 
+    def snapped_dir(self, ph):
+        """(cos, sin) of the multiple of 90 deg nearest to ph, exact, if that angle lies strictly
+        inside the angular range; else None."""
+        k = int(np.round(ph / (np.pi / 2)))
+        a = k * (np.pi / 2)
+        if not self.full and not bool(self.ang_in(np.array([a]), strict=True, tol=1e-9)[0]):
+            return None
+        return [(1.0, 0.0), (0.0, 1.0), (-1.0, 0.0), (0.0, -1.0)][k % 4]
+
     def surface_point(self, u):
         fl = self._faces()
         # equal weight per face (small faces matter as much as big ones)
@@ -795,3 +804,67 @@ def classify(body: Body, p_local):
     d = float(body.dist(np.asarray(p_local)[None])[0])
     ins = bool(body.inside(np.asarray(p_local)[None])[0]) if body.kind == "magnet" else False
     return ins, d / body.L
+
+
+# --------------------------------------------------------------------------------------
+# points exactly on special sets (local frame) for C02 / C15
+
+SPECIAL_KINDS = ["on_face", "on_edge", "on_corner", "on_axis", "center"]
+
+
+def special_point(body: Body, kind: str, u):
+    """A point constructed on a special set of the body.  Where the geometry allows it the
+    coordinates are exact in floating point (axis-aligned faces, rim points at multiples of
+    90 deg, vertices); otherwise they are the rounded nearest representable point.
+    Returns (point, detail) or None."""
+    if kind == "center":
+        if isinstance(body, Polyhedron):
+            return body.centroid.copy(), "centroid"
+        return np.zeros(3), "origin"
+    if kind == "on_axis" and isinstance(body, (CylSeg, CircleBody)):
+        h = body.h if isinstance(body, CylSeg) else body.R
+        choices = [0.0, h / 2, -h / 2, (u[3] - 0.5) * h, (1.0 + u[3]) * h, -(1.0 + u[3]) * h]
+        z = choices[min(int(u[0] * len(choices)), len(choices) - 1)]
+        return np.array([0.0, 0.0, z]), "axis"
+    if kind == "on_face":
+        if isinstance(body, CylSeg):
+            S, n, name = body.surface_point(u)
+            if u[7] < 0.5 and name in ("outer", "inner", "top", "bottom"):
+                r = np.hypot(S[0], S[1])
+                if name in ("outer", "inner"):
+                    r = body.r2 if name == "outer" else body.r1
+                d = body.snapped_dir(np.arctan2(S[1], S[0]))
+                if d is not None:
+                    return np.array([r * d[0], r * d[1], S[2]]), name + "_snapped"
+            return S, name
+        if isinstance(body, SphereBody):
+            if u[7] < 0.5:
+                k = int(u[1] * 6) % 6
+                p = np.zeros(3)
+                p[k % 3] = body.R if k < 3 else -body.R
+                return p, "surface_snapped"
+            S, _n, _ = body.surface_point(u)
+            return S, "surface"
+        S, _n, name = body.surface_point(u)
+        return S, name
+    if kind == "on_edge":
+        if isinstance(body, CylSeg):
+            e = body.edge_point(u)
+            S = e[0]
+            if u[7] < 0.5 and e[4] is None:  # arc: snap the azimuth
+                r = np.hypot(S[0], S[1])
+                R_ = body.r2 if abs(r - body.r2) < abs(r - body.r1) or body.r1 == 0 else body.r1
+                d = body.snapped_dir(np.arctan2(S[1], S[0]))
+                if d is not None:
+                    return np.array([R_ * d[0], R_ * d[1], S[2]]), "arc_snapped"
+            return S, "edge"
+        e = body.edge_point(u)
+        if e is None:
+            return None
+        return e[0], "edge"
+    if kind == "on_corner":
+        v = body.vertex_point(u)
+        if v is None:
+            return None
+        return np.array(v[0], dtype=float), "vertex"
+    return None
